@@ -198,6 +198,80 @@ func c17Component(r *vkit.Report, name string, proofPtr any, honest []*big.Int, 
 	}
 }
 
+// c17Transplant: sub-proofs made under another challenge.  other is a proof built from the SAME
+// commitments as *proofPtr but for a different challenge.  Every subtree of the proof (every prefix of
+// every leaf path) is replaced by the corresponding subtree of other and the result verified under the
+// original challenge.  Parts whose reconstruction uses challenges they carry themselves (the branches
+// of an OR-composition) reconstruct to the same commitments wherever they are put: only the
+// verifier's tie between those challenges and the Fiat-Shamir challenge rejects them.
+func c17Transplant(r *vkit.Report, name string, proofPtr, otherPtr any, honest []*big.Int, verify func() (bool, []*big.Int)) {
+	var leaves, others []c17Leaf
+	c17Leaves(reflect.ValueOf(proofPtr).Elem(), "", &leaves)
+	c17Leaves(reflect.ValueOf(otherPtr).Elem(), "", &others)
+	if len(leaves) != len(others) {
+		r.HarnessError("%s: proofs for two challenges differ in shape (%d / %d leaves)", name, len(leaves), len(others))
+		return
+	}
+	seen := map[string]bool{}
+	var prefixes []string
+	for _, lf := range leaves {
+		p := lf.path
+		for i := 1; i <= len(p); i++ {
+			if i == len(p) || p[i] == '.' || p[i] == '[' || p[i] == '{' {
+				if pre := p[:i]; !seen[pre] {
+					seen[pre] = true
+					prefixes = append(prefixes, pre)
+				}
+			}
+		}
+	}
+	same := func(a, b *big.Int) bool { return (a == nil) == (b == nil) && (a == nil || a.Cmp(b) == 0) }
+	for _, pre := range prefixes {
+		if _, mine := r.Next(); !mine {
+			continue
+		}
+		if r.Expired() {
+			return
+		}
+		var idx []int
+		var origs []*big.Int
+		changed := 0
+		for i, lf := range leaves {
+			if !strings.HasPrefix(lf.path, pre) || len(lf.path) > len(pre) && !strings.ContainsRune(".[{", rune(lf.path[len(pre)])) {
+				continue
+			}
+			o, n := lf.get(), others[i].get()
+			idx, origs = append(idx, i), append(origs, o)
+			if !same(o, n) {
+				changed++
+				if n != nil {
+					n = new(big.Int).Set(n)
+				}
+				lf.set(n)
+			}
+		}
+		if changed == 0 {
+			continue
+		}
+		r.Eval()
+		r.Nontrivial(name + "|transplant|" + pre)
+		var ok bool
+		var list []*big.Int
+		pan, _ := vkit.Guard(func() { ok, list = verify() })
+		for j, i := range idx {
+			leaves[i].set(origs[j])
+		}
+		switch {
+		case pan:
+			r.Outcome(name + ":transplant-from-other-challenge:panic")
+		case ok && c17SameList(list, honest):
+			r.Violate("C17|sub-proof-made-for-another-challenge-accepted|"+name, fmt.Sprintf("%s: subtree %s (%d of its %d integers differ) taken from a proof of the same commitments under another challenge: structure accepted and reconstructed commitments unchanged", name, pre, changed, len(idx)), map[string]any{"component": name, "subtree": pre})
+		default:
+			r.Outcome(name + ":transplant-from-other-challenge:rejected")
+		}
+	}
+}
+
 // c17Degenerate: Fiat-Shamir forgery handles.  All big-integer leaves of the component proof and of
 // the proofs it takes its bases from are grouped by field name; every assignment of {keep, 0, P, 2P}
 // to the groups is applied (all of them for <= 6 groups, else every assignment with <= 2 groups changed
@@ -335,7 +409,7 @@ func c17Degenerate(r *vkit.Report, name string, P *big.Int, ptrs []any, verify f
 func TestVerifC17Components(t *testing.T) {
 	r := vkit.Start(t, "C17", "zk-components", 600*time.Second, 1200*time.Second)
 	defer r.Finish()
-	r.Rule = "components {pedersen, addition, multiplication, exp (with its exp-step OR-compositions, both bit values), prime, is-square} on toy groups: honest instance, then EVERY exported big-integer leaf of the proof x {+1, -1, =0, =nil, =next leaf; for sub-challenges of OR-compositions also +order, +order*2^256, +2^256; for range-proof responses of the range-limited secret also +order*2^(len+64), far beyond the size bound}; non-trivial = distinct (component, leaf, alteration) that changes the value; oracle: honest => structure ok and commitments-from-proof == commitments-from-secrets; altered => structure check fails or the reconstructed list differs"
+	r.Rule = "components {pedersen, addition, multiplication, exp (with its exp-step OR-compositions, both bit values), prime, is-square} on toy groups: honest instance, then EVERY exported big-integer leaf of the proof x {+1, -1, =0, =nil, =next leaf; for sub-challenges of OR-compositions also +order, +order*2^256, +2^256; for exp and prime every subtree of the proof replaced by the same subtree of a proof built from the same commitments for another challenge; for range-proof responses of the range-limited secret also +order*2^(len+64), far beyond the size bound}; non-trivial = distinct (component, leaf, alteration) that changes the value; oracle: honest => structure ok and commitments-from-proof == commitments-from-secrets; altered => structure check fails or the reconstructed list differs"
 	ch := big.NewInt(12345)
 	common.VerifSeedCPRNG([32]byte{17, 17, 17})
 	// a 40-bit safe-prime group: with the 23-element group of the package's own tests a changed
@@ -450,6 +524,15 @@ func TestVerifC17Components(t *testing.T) {
 		rP.setName("r")
 		pb := zkproof.NewBaseMerge(&g47, &aP, &bP, &nP, &rP)
 		pp := zkproof.NewProofMerge(&aP, &bP, &nP, &rP)
+		{
+			other := s.buildProof(g47, new(big.Int).Xor(ch, big.NewInt(0x5a5a5)), commit, &secrets)
+			c17Transplant(r, fmt.Sprintf("exp(%d^%d mod %d)", tc[0], tc[1], tc[2]), &proof, &other, ls, func() (bool, []*big.Int) {
+				if !s.verifyProofStructure(ch, proof) {
+					return false, nil
+				}
+				return true, s.commitmentsFromProof(g47, nil, ch, &pb, &pp, proof)
+			})
+		}
 		c17Component(r, fmt.Sprintf("exp(%d^%d mod %d)", tc[0], tc[1], tc[2]), &proof, ls, func() (bool, []*big.Int) {
 			if !s.verifyProofStructure(ch, proof) {
 				return false, nil
@@ -491,6 +574,15 @@ func TestVerifC17Components(t *testing.T) {
 			pP := ps.buildProof(g, ch, pc)
 			pP.setName("p")
 			bp := zkproof.NewBaseMerge(&g, &pP)
+			{
+				other := s.buildProof(g, new(big.Int).Xor(ch, big.NewInt(0x5a5a5)), commit, &pc)
+				c17Transplant(r, "prime(11)", &proof, &other, ls, func() (bool, []*big.Int) {
+					if !s.verifyProofStructure(ch, proof) {
+						return false, nil
+					}
+					return true, s.commitmentsFromProof(g, nil, ch, &bp, &pP, proof)
+				})
+			}
 			c17Component(r, "prime(11)", &proof, ls, func() (bool, []*big.Int) {
 				if !s.verifyProofStructure(ch, proof) {
 					return false, nil
